@@ -571,7 +571,7 @@ macro_rules! class_impl {
                             o.fail("Debug-spec", format!("{:?} vs {:?}", dbgs(&a), dbgs(&tx)));
                         }
                         opt_checks!(o, a, b, eq5, tx, ty);
-                        opt_display_checks(o, d.x.s.len() as u32 * 0x3f9e_3779 ^ 0x4020_0000);
+                        opt_display_checks(o, (d.x.s.len() as u32).wrapping_mul(0x3f9e_3779) ^ 0x4020_0000);
                         opt_borrow_checks(o, &d.x.s.iter().map(|e| e.to_bits_() as u8).collect::<Vec<u8>>());
                     }
                     6 => {
